@@ -3,6 +3,8 @@ import GmQuic.Lemmas.Stream
 import GmQuic.Lemmas.StreamRun
 import GmQuic.Lemmas.StreamMono
 import GmQuic.Lemmas.StreamDone
+import GmQuic.Lemmas.StreamLiveN
+import GmQuic.Lemmas.StreamLiveV
 /-!
 C01 — stream data is delivered reliably, in order, exactly once.
 
@@ -164,5 +166,187 @@ theorem idle_means_nothing_pending (s : Sender) (hl : s.live = true) (h : s.some
 -- non-vacuity: after the witness history minus the final acks the sender is live, idle and has nothing pending
 example : (after 20 20 (exOps.take 15)).snd.live = true ∧ (after 20 20 (exOps.take 15)).snd.somePick = none ∧
     (after 20 20 (exOps.take 6)).snd.somePick = some (0, 1) := by decide
+
+/-! ### 7. liveness: if the network eventually delivers what is retransmitted, everything completes
+
+`Fair s` (Lemmas/StreamLiveN) = the state is reachable (all invariants), no reset / stop / connection error happened
+on either half (`SndOk`, `RcvOk`), and the network was honest so far (`Honest`: what is marked acknowledged has
+reached the receiver).  `fair_history` shows that it holds after EVERY history of `HOp`s: arbitrary writes, shutdown,
+picks, deliveries of any emitted frame in any order and multiplicity, loss declarations of any frame (spurious or
+not, before or after a delivery / acknowledgement), reads, window updates, and acknowledgements that follow a delivery.
+
+The cooperative suffix, from such a state with the whole stream inside the sender's window:
+1. `shutdown`;
+2. every frame ever emitted is, at the schedule's choice (`keep`), declared lost or delivered and acknowledged;
+3. ANY sequence `ps` of legal picks (ranges chosen by the implementation) none of which merely repeats the FIN-only
+   frame, continued until the sender has nothing to send (`somePick = none`) — at most `mu` picks
+   (`pick_phase_terminates`), and while `somePick ≠ none` a next pick exists (`sender_deadlock_free`);
+4. every frame emitted in phase 3 is delivered and acknowledged — and ONLY those: a frame declared lost in phase 2
+   is never delivered or acknowledged, so whatever it carried must have been retransmitted by the sender itself;
+5. two reads with room for more than the whole stream.
+-/
+
+/-- After every history without abort in which the network acknowledges only what it delivered, the hypotheses
+of the liveness theorem hold. -/
+theorem fair_history (sw rw : Nat) (h : sw ≤ rw) (l : List HOp) : Fair (after sw rw (hops l)) :=
+  fair_run (fair_init sw rw h) l
+
+/-- TERMINATION MEASURE of "pick until there is nothing to pick": any sequence of legal picks that never merely
+repeats the FIN-only frame is at most `mu` long (`mu` = number of written bytes that are unsent or marked lost
++ 1 if a FIN (re)transmission is outstanding), from ANY state. -/
+theorem pick_phase_terminates (s : Stream) (ps : List (Nat × Nat)) (h : PickSeq s ps) : ps.length ≤ s.snd.mu :=
+  pickSeq_bound h
+
+/-- DEADLOCK FREEDOM of the sender, ∀ hist: whenever the model says something must be sent (`somePick ≠ none`:
+a byte inside the window is unsent or marked lost, or the FIN is due), a legal pick exists that strictly
+decreases the measure. -/
+theorem sender_deadlock_free (sw rw : Nat) (h : sw ≤ rw) (hist : List Op)
+    (hn : (after sw rw hist).snd.somePick ≠ none) :
+    ∃ o l, (after sw rw hist).snd.pickOk o l ∧ (l ≠ 0 ∨ (after sw rw hist).snd.finDue) ∧
+      ((after sw rw hist).snd.pick o l).1.mu < (after sw rw hist).snd.mu := by
+  obtain ⟨o, l, h1, h2⟩ := progress (reach_run (reach_init sw rw h) hist) hn
+  exact ⟨o, l, h1, h2, pick_mu_lt h1 h2⟩
+
+/-- LIVENESS (cooperative-suffix form, full strength): from EVERY state `s0` that satisfies `Fair` and has the whole
+stream inside the sender's window, for EVERY choice `keep` of which frames in flight are lost and which are
+delivered+acknowledged, and EVERY complete sequence `ps` of legal non-repeating picks: after delivering and
+acknowledging exactly the frames emitted by these picks and reading, the reader has read exactly `written`, has seen
+end-of-stream, the sender is in `DataRcvd`, `poll_shutdown` and `poll_flush` are `Ready(Ok)`, the receiver is in
+`DataRead`. -/
+theorem eventually_complete (s0 : Stream) (hf : Fair s0) (hwin : s0.snd.written.length ≤ s0.snd.maxData)
+    (keep : Nat → Bool) (ps : List (Nat × Nat)) (cap : Nat) (hcap : s0.snd.written.length < cap) :
+    let s2 := s0.run (.shutdown :: settleOps keep (List.range s0.emitted.length))
+    PickSeq s2 ps →
+    let s3 := s2.run (pickOps ps)
+    s3.snd.somePick = none →
+    let t := s3.run (settleOps (fun _ => true) (List.range' s0.emitted.length (s3.emitted.length - s0.emitted.length)) ++
+                      [.read cap, .read cap])
+    t.eof = true ∧ t.out = s0.snd.written ∧ t.snd.written = s0.snd.written ∧ t.snd.st = .dataRcvd ∧
+      t.snd.pollShutdown.2 = "ready" ∧ t.snd.pollFlush = "ready" ∧ t.rcv.st = .dataRead := by
+  intro s2 hps s3 hidle t
+  obtain ⟨r2, ok2, so2, w2, m2, k2⟩ := phaseB hf.reach hf.hon hf.snd hf.rcv keep
+  have k3 := k_picks hps k2
+  have r3 : Reach s3 := reach_run r2 _
+  have m23 : Mono s2 s3 := mono_run r2 _ (pickOps_coop ps)
+  have hw3 : s3.snd.written = s0.snd.written := m23.wr.trans w2
+  obtain ⟨d1, d2, d3, d4, hrd⟩ := phaseD r3 (m23.ok ok2) (m23.so so2) k3
+    (by rw [hw3, m23.md, m2]; exact hwin) hidle (cap := cap) (by rw [hw3]; exact hcap)
+  have hc : ∀ op ∈ (settleOps (fun _ => true) (List.range' s0.emitted.length (s3.emitted.length - s0.emitted.length)) ++
+      [Op.read cap, Op.read cap]), op.coop = true := by
+    intro op hm
+    rcases List.mem_append.mp hm with e | e
+    · exact settle_coop _ _ op e
+    · simp at e; subst e; rfl
+  have so6 : SndOk t.snd := (mono_run r3 _ hc).so (m23.so so2)
+  refine ⟨d1, by rw [d2, hw3], by rw [d3, hw3], d4, ?_, ?_, hrd⟩
+  · have d4' : t.snd.st = .dataRcvd := d4
+    unfold Sender.pollShutdown; simp [so6.1, d4']
+  · have d4' : t.snd.st = .dataRcvd := d4
+    unfold Sender.pollFlush; simp [so6.1, d4']
+
+/-- LIVENESS when the application never shuts the stream down ("EOF iff shutdown was called", the other half): from
+every `Fair` state in which `shutdown` was not called, with the stream inside the window, the same suffix WITHOUT
+`shutdown` (every frame in flight lost or delivered+acknowledged; any complete sequence of legal picks; exactly the new
+frames delivered and acknowledged; one large read) ends with every written byte read, every byte acknowledged,
+`poll_flush` = `Ready(Ok)`, and NO end-of-stream reported. -/
+theorem eventually_flushed (s0 : Stream) (hf : Fair s0)
+    (hopen : s0.snd.shutdown = false ∧ (s0.snd.st = .ready ∨ s0.snd.st = .sending))
+    (hwin : s0.snd.written.length ≤ s0.snd.maxData)
+    (keep : Nat → Bool) (ps : List (Nat × Nat)) (cap : Nat) (hcap : s0.snd.written.length < cap) :
+    let s2 := s0.run (settleOps keep (List.range s0.emitted.length))
+    PickSeq s2 ps →
+    let s3 := s2.run (pickOps ps)
+    s3.snd.somePick = none →
+    let t := s3.run (settleOps (fun _ => true) (List.range' s0.emitted.length (s3.emitted.length - s0.emitted.length)) ++
+                      [.read cap])
+    t.out = s0.snd.written ∧ t.snd.written = s0.snd.written ∧ t.snd.pollFlush = "ready" ∧ t.snd.allAcked ∧
+      t.eof = false := by
+  intro s2 hps s3 hidle t
+  have ho : Open s0.snd := ⟨hf.snd.1, hopen.1, hopen.2⟩
+  obtain ⟨r2, ok2, o2, w2, m2, k2⟩ := phaseB' hf.reach hf.hon ho hf.rcv keep
+  have k3 := kd_picks hps k2
+  have r3 : Reach s3 := reach_run r2 _
+  have m23 : Mono s2 s3 := mono_run r2 _ (pickOps_coop ps)
+  have o3 : Open s3.snd := open_run _ (pickOps_noshut ps) o2
+  have hw3 : s3.snd.written = s0.snd.written := m23.wr.trans w2
+  obtain ⟨d1, d2, d3, d4, d5⟩ := phaseD' r3 (m23.ok ok2) o3 k3
+    (by rw [hw3, m23.md, m2]; exact hwin) hidle (cap := cap) (by rw [hw3]; exact hcap)
+  exact ⟨by rw [d1, hw3], by rw [d2, hw3], d3, d5, d4⟩
+
+def exOpen : List HOp := [.write [1, 2, 3, 4], .pick 0 2, .pick 2 2, .lose 1, .deliverAck 0]
+
+-- non-vacuity: two frames, the second lost; no shutdown; the retransmission `(2, 2)` completes the picks
+example :
+    let s2 := (after 20 20 (hops exOpen)).run (settleOps (fun _ => false) (List.range 2))
+    (after 20 20 (hops exOpen)).snd.shutdown = false ∧ (after 20 20 (hops exOpen)).snd.st = .sending ∧
+    s2.snd.pickOk 2 2 ∧ (s2.run (pickOps [(2, 2)])).snd.somePick = none := by decide
+
+example :
+    let t := (after 20 20 (hops exOpen)).run (settleOps (fun _ => false) (List.range 2) ++ pickOps [(2, 2)] ++
+      settleOps (fun _ => true) (List.range' 2 1) ++ [.read 5])
+    t.out = [1, 2, 3, 4] ∧ t.snd.pollFlush = "ready" ∧ t.eof = false ∧ t.snd.st = .sending := by decide
+
+/-- A complete cooperative suffix EXISTS from every such state (so the theorem above is never vacuous and the
+schedule it describes can always be played to the end). -/
+theorem cooperative_suffix_exists (s0 : Stream) (hf : Fair s0) (keep : Nat → Bool) :
+    let s2 := s0.run (.shutdown :: settleOps keep (List.range s0.emitted.length))
+    ∃ ps, PickSeq s2 ps ∧ ps.length ≤ s2.snd.mu ∧ (s2.run (pickOps ps)).snd.somePick = none := by
+  intro s2
+  obtain ⟨ps, p1, p2⟩ := exists_drain s2.snd.mu (Nat.le_refl _) (reach_run hf.reach _)
+  exact ⟨ps, p1, pickSeq_bound p1, p2⟩
+
+/-- LIVENESS, all hypotheses but the window discharged: after EVERY no-abort history with an honest network, if the
+stream fits the sender's window, then for every choice of which frames in flight are lost there is a finite continuation
+(the cooperative suffix; `shutdown`, picks, deliveries, acknowledgements, loss declarations and reads only) after
+which the reader has read exactly what was written, has seen end-of-stream, and the sender is in `DataRcvd`. -/
+theorem completes_after_every_history (sw rw : Nat) (h : sw ≤ rw) (l : List HOp)
+    (hwin : (after sw rw (hops l)).snd.written.length ≤ (after sw rw (hops l)).snd.maxData) (keep : Nat → Bool) :
+    ∃ ops : List Op, (∀ op ∈ ops, op.coop = true) ∧
+      ((after sw rw (hops l)).run ops).eof = true ∧
+      ((after sw rw (hops l)).run ops).out = (after sw rw (hops l)).snd.written ∧
+      ((after sw rw (hops l)).run ops).snd.st = .dataRcvd ∧
+      ((after sw rw (hops l)).run ops).snd.pollShutdown.2 = "ready" ∧
+      ((after sw rw (hops l)).run ops).snd.pollFlush = "ready" := by
+  have hf := fair_history sw rw h l
+  obtain ⟨ps, p1, _, p3⟩ := cooperative_suffix_exists _ hf keep
+  have hc := eventually_complete _ hf hwin keep ps ((after sw rw (hops l)).snd.written.length + 1) (Nat.lt_succ_self _) p1 p3
+  obtain ⟨c1, c2, _, c4, c5, c6, _⟩ := hc
+  refine ⟨(.shutdown :: settleOps keep (List.range (after sw rw (hops l)).emitted.length)) ++ pickOps ps ++
+    (settleOps (fun _ => true) (List.range' (after sw rw (hops l)).emitted.length
+      ((((after sw rw (hops l)).run (.shutdown :: settleOps keep (List.range (after sw rw (hops l)).emitted.length))).run
+        (pickOps ps)).emitted.length - (after sw rw (hops l)).emitted.length)) ++
+     [.read ((after sw rw (hops l)).snd.written.length + 1), .read ((after sw rw (hops l)).snd.written.length + 1)]), ?_, ?_⟩
+  · intro op hm
+    rcases List.mem_append.mp hm with e | e
+    · rcases List.mem_append.mp e with e | e
+      · rcases List.mem_cons.mp e with e | e
+        · subst e; rfl
+        · exact settle_coop _ _ op e
+      · exact pickOps_coop ps op e
+    · rcases List.mem_append.mp e with e | e
+      · exact settle_coop _ _ op e
+      · simp at e; subst e; rfl
+  · simp only [run_append] at c1 c2 c4 c5 c6 ⊢
+    exact ⟨c1, c2, c4, c5, c6⟩
+
+/-- the history of seeded change c01-1: the tail is sent without FIN, spuriously declared lost, the application
+shuts down, the retransmission carries data + FIN, the original is delivered and acknowledged late -/
+def exLate : List HOp :=
+  [.write [1, 2, 3, 4, 5], .pick 0 5, .lose 0, .shutdown, .pick 0 5, .deliverAck 0]
+
+-- non-vacuity: on that history, with the data+FIN retransmission then lost for good (`keep = false`), the sender
+-- must come back with a FIN-only frame (the complete pick sequence is `[(5, 0)]`), and the suffix completes
+example : (after 20 20 (hops exLate)).snd.st = .dataSent ∧ (after 20 20 (hops exLate)).snd.fin = .sent ∧
+    (after 20 20 (hops exLate)).snd.written.length ≤ (after 20 20 (hops exLate)).snd.maxData := by decide
+
+example :
+    let s2 := (after 20 20 (hops exLate)).run (.shutdown :: settleOps (fun _ => false) (List.range 2))
+    s2.snd.somePick = some (5, 0) ∧ s2.snd.pickOk 5 0 ∧ s2.snd.finDue ∧ s2.snd.mu = 1 ∧
+    (s2.run (pickOps [(5, 0)])).snd.somePick = none := by decide
+
+example :
+    let t := (after 20 20 (hops exLate)).run (.shutdown :: settleOps (fun _ => false) (List.range 2) ++ pickOps [(5, 0)] ++
+      settleOps (fun _ => true) (List.range' 2 1) ++ [.read 6, .read 6])
+    t.eof = true ∧ t.out = [1, 2, 3, 4, 5] ∧ t.snd.st = .dataRcvd ∧ t.rcv.st = .dataRead ∧ t.emitted.length = 3 := by decide
 
 end GmQuic.Stream
